@@ -136,6 +136,22 @@ CHECKS = {
         '(over-long varints, ignored byte sizes): not part of the statement.',
    technique='Coq proof (inductive specification relation; inversion + induction on fuel) + certified-layout differential check',
    design='DESIGN.md 6/C02'),
+ 'C04': dict(
+   text='Theorems (Coq): for EVERY partition of the item encodings into non-empty blocks, every codec with decompress o compress '
+        '= id and every marker, the reader yields exactly the values in order and ends cleanly (C04_body_any_partition); the '
+        'header reader accepts the metadata map in ANY layout the binary encoding allows - several blocks, negative counts with '
+        'byte sizes, any key order, unknown keys - and returns exactly its entries, the marker and the position of the first block '
+        '(C04_header_any_layout, through the C02 theorem that the decoder accepts every specification-legal encoding). The writing '
+        'direction is C03\'s theorems. Check every run, both directions: files written by the library (all six codecs, block sizes, '
+        'flush points, user metadata) are parsed by the independent reader gen/ocf.py (magic, metadata, marker, count/size/payload/'
+        'marker blocks, raw-deflate / bzip2 / xz via the Python standard library, own raw-snappy decoder + CRC-32) and their '
+        'payloads are the model encodings of the appended values; conforming files produced by the independent writer (random block '
+        'partition incl. empty file / one per block / one block, multi-block and negative-count metadata maps, unknown avro.* keys, '
+        'user keys, five codecs) are read by the library to the same values, schema and user metadata.',
+   note='codec libraries are outside the model (Section hypothesis decompress (compress x) = x; C15 checks it); zstandard has no '
+        'independent decoder here: for it only the container structure and block counts are checked in the writing direction',
+   technique='Coq proof (induction over blocks; C02 specification relation for the header) + independent reader/writer differential check',
+   design='DESIGN.md 6/C04'),
  'C07': dict(
    text='Theorems (Coq): a value validation rejects is written by none of the validating paths - datum writer '
         'errs before encoding, single-object writer emits nothing and keeps its buffer, container writer state '
